@@ -56,7 +56,8 @@ structure St where
   nextL : Bool := false
 deriving Repr, DecidableEq, Inhabited
 
-def ascii (s : String) : Bytes := s.toUTF8.toList
+/-- the octets of an ASCII literal -/
+def ascii (s : String) : Bytes := s.toList.map (fun c => UInt8.ofNat c.toNat)
 
 /-- what `strings.ToUpper` does to a token as far as comparisons with ASCII keys can tell: ASCII letters are folded,
     and the only two non-ASCII runes whose upper case is ASCII are U+0131 (dotless i, `C4 B1` → `I`) and U+017F
@@ -85,6 +86,28 @@ def parseUint16 (s : Bytes) : Option Nat :=
 def numericCode (offset : Nat) (token : Bytes) : Option Nat :=
   if token.length < offset + 1 then none else parseUint16 (token.drop offset)
 
+/-- the type half of `zlexer.text`: a mnemonic of `StringToType`, or `TYPEnnn` (`none` = malformed `TYPEnnn`) -/
+def typeStep (zl : St) (l : Tok) (up str : Bytes) : Option (St × Tok) :=
+  match lookup Gen.stringToType up with
+  | some t => some ({ zl with rrtype := true }, { l with value := zRrtpe, torc := t })
+  | none =>
+    if isPrefix (ascii "TYPE") up then
+      match numericCode 4 str with
+      | some t => some ({ zl with rrtype := true }, { l with value := zRrtpe, torc := t })
+      | none => none
+    else some (zl, l)
+
+/-- the class half of `zlexer.text` (it runs after the type half, so `ANY` ends up as a class) -/
+def classStep (zl : St) (l : Tok) (up str : Bytes) : St × Bool :=
+  match lookup Gen.stringToClass up with
+  | some t => ({ zl with l := { l with value := zClass, torc := t } }, true)
+  | none =>
+    if isPrefix (ascii "CLASS") up then
+      match numericCode 5 str with
+      | some t => ({ zl with l := { l with value := zClass, torc := t } }, true)
+      | none => ({ zl with l := { l with token := ascii "unknown class", err := true } }, false)
+    else ({ zl with l := l }, true)
+
 /-- `zlexer.text` (scan.go): the text gathered before a blank or a comment becomes an owner / directive when it is the
     first thing on a line, a type or class while no type has been seen, a plain string otherwise.  `false` = the token
     carries a lexer error (malformed TYPEnnn / CLASSnnn). -/
@@ -102,29 +125,9 @@ def classify (zl : St) (str : Bytes) : St × Bool :=
     let l := { l with value := zString }
     if zl.rrtype then ({ zl with l := l }, true)
     else
-      let up := goUpper str
-      -- type
-      let r1 : Option (St × Tok) :=
-        match lookup Gen.stringToType up with
-        | some t => some ({ zl with rrtype := true }, { l with value := zRrtpe, torc := t })
-        | none =>
-          if isPrefix (ascii "TYPE") up then
-            match numericCode 4 str with
-            | some t => some ({ zl with rrtype := true }, { l with value := zRrtpe, torc := t })
-            | none => none
-          else some (zl, l)
-      match r1 with
+      match typeStep zl l (goUpper str) str with
       | none => ({ zl with l := { l with token := ascii "unknown RR type", err := true } }, false)
-      | some (zl1, l1) =>
-        -- class
-        match lookup Gen.stringToClass up with
-        | some t => ({ zl1 with l := { l1 with value := zClass, torc := t } }, true)
-        | none =>
-          if isPrefix (ascii "CLASS") up then
-            match numericCode 5 str with
-            | some t => ({ zl1 with l := { l1 with value := zClass, torc := t } }, true)
-            | none => ({ zl1 with l := { l1 with token := ascii "unknown class", err := true } }, false)
-          else ({ zl1 with l := l1 }, true)
+      | some (zl1, l1) => classStep zl1 l1 (goUpper str) str
 
 /-- `readByte`'s line / column bookkeeping for the octet `c`, and `l.line, l.column = zl.line, zl.column` -/
 def advance (zl : St) (c : UInt8) : St :=
@@ -166,11 +169,11 @@ def scan (zl : St) (str com : Bytes) (escape : Bool) : Bytes → Res
           ({ zl with space := true, l := l }, rest, some l)
         else scan zl str com escape rest
       else
-        let (zl, ok) := classify zl str
-        if !ok then (zl, rest, some zl.l)
+        let r := classify zl str
+        if !r.2 then (r.1, rest, some r.1.l)
         else
-          let retL := zl.l
-          let zl := { zl with owner := false }
+          let retL := r.1.l
+          let zl := { r.1 with owner := false }
           if !zl.space then
             ({ zl with space := true, l := { zl.l with value := zBlank, token := [32] }, nextL := true }, rest, some retL)
           else (zl, rest, some retL)
@@ -185,9 +188,8 @@ def scan (zl : St) (str com : Bytes) (escape : Bool) : Bytes → Res
         else
           let com := (if com.length > 1 then com ++ [32] else com) ++ [59]
           if !str.isEmpty then
-            let zl := { zl with comBuf := com }
-            let (zl, _) := classify zl str
-            ({ zl with owner := false }, rest, some zl.l)
+            let r := classify { zl with comBuf := com } str
+            ({ r.1 with owner := false }, rest, some r.1.l)
           else scan zl str com escape rest
     else if x == 13 then   -- '\r'
       if zl.quote then scan zl (str ++ [x]) com false rest else scan zl str com false rest
@@ -202,14 +204,12 @@ def scan (zl : St) (str com : Bytes) (escape : Bool) : Bytes → Res
       else if zl.brace == 0 then
         if !str.isEmpty then
           let l := { zl.l with value := zString, token := str }
-          let (zl, l) :=
-            if !zl.rrtype then
-              match lookup Gen.stringToType (goUpper str) with
-              | some t => ({ zl with rrtype := true }, { l with value := zRrtpe, torc := t })
-              | none => (zl, l)
-            else (zl, l)
-          let retL := l
-          let l := { l with value := zNewline, token := [10] }
+          -- only a type mnemonic is recognised here (`rrtype` is reset right below)
+          let ty := if !zl.rrtype then lookup Gen.stringToType (goUpper str) else none
+          let retL := match ty with
+            | some t => { l with value := zRrtpe, torc := t }
+            | none => l
+          let l := { retL with value := zNewline, token := [10] }
           ({ zl with l := l, comment := zl.comBuf, comBuf := [], rrtype := false, owner := true, nextL := true },
             rest, some retL)
         else
@@ -264,7 +264,7 @@ def tokens : (fuel : Nat) → St → Bytes → List (Tok × Bytes)
     | (_, _, none) => []
     | (zl', rest, some t) => (t, commentOf zl') :: tokens f zl' rest
 
-/-- enough fuel for any input: every call of `next` either consumes an octet or clears `nextL` -/
-def lexAll (input : Bytes) : List (Tok × Bytes) := tokens (2 * input.length + 4) {} input
+/-- enough fuel for any input (`C07.lexAll_complete`: any larger amount gives the same stream) -/
+def lexAll (input : Bytes) : List (Tok × Bytes) := tokens (4 * input.length + 4) {} input
 
 end Dns.Lex
